@@ -106,7 +106,7 @@ func VerifC09Merge() {
 	}
 	r := &http.Request{Header: http.Header{}}
 	has1, has2, has3 := verif.Bool("has1"), verif.Bool("has2"), verif.Bool("has3")
-	v1, v2, v3 := verif.String("v1", 4), verif.String("v2", 4), verif.String("v3", 4)
+	v1, v2, v3 := verif.String("v1", verif.L(4)), verif.String("v2", verif.L(4)), verif.String("v3", verif.L(4))
 	if has1 {
 		r.Header[n1] = []string{v1}
 	}
@@ -151,7 +151,7 @@ func VerifC09Value() {
 	var v string
 	stringTyped := typ != "integer" && typ != "number" && typ != "boolean" && typ != "array"
 	if !stringTyped || format != "uuid" {
-		v = verif.String("v", 6)
+		v = verif.String("v", verif.L(6))
 	} else if verif.Bool("len36") {
 		// exactly 36 characters: a well-formed uuid in which one or two positions (a hex
 		// position at a group boundary or in the middle, or a dash position) hold an arbitrary
@@ -159,6 +159,9 @@ func VerifC09Value() {
 		// this length is out of reach
 		const tmpl = "01234567-89ab-cdEF-0123-456789abcdef"
 		pos := []int{0, 7, 8, 9, 13, 18, 22, 23, 24, 35}[verif.Choice("uuid.pos", 10)]
+		if verif.Thorough() {
+			pos = verif.Choice("uuid.anypos", 36) // every position
+		}
 		v = tmpl[:pos] + verif.StringN("uuid.char", 1, "") + tmpl[pos+1:]
 		if verif.Bool("uuid.second") {
 			v = v[:20] + verif.StringN("uuid.char2", 1, "") + v[21:]
@@ -166,7 +169,7 @@ func VerifC09Value() {
 	} else if verif.Bool("len37") {
 		v = verif.StringN("long", 37, "")
 	} else {
-		v = verif.String("v", 6)
+		v = verif.String("v", verif.L(6))
 	}
 	r := &http.Request{Header: http.Header{}}
 	if has {
